@@ -908,6 +908,16 @@ func (c *DynamicConverter) From(obj interface{}) (Object, error) {
 	return conv.From(obj)
 }
 
+// reflectValueOf is reflect.ValueOf, except that a nil result of a converter
+// (a script nil destined for a pointer, slice, map or interface element)
+// becomes the zero value of the element type instead of an invalid Value.
+func reflectValueOf(v interface{}, typ reflect.Type) reflect.Value {
+	if v == nil {
+		return reflect.Zero(typ)
+	}
+	return reflect.ValueOf(v)
+}
+
 // MapConverter converts between map[string]interface{} and *Map.
 type MapConverter struct {
 	valueConverter TypeConverter
@@ -930,7 +940,7 @@ func (c *MapConverter) To(obj Object) (interface{}, error) {
 		if err != nil {
 			return nil, err
 		}
-		gMap.SetMapIndex(reflect.ValueOf(k), reflect.ValueOf(conv))
+		gMap.SetMapIndex(reflect.ValueOf(k), reflectValueOf(conv, c.valueType))
 	}
 	return gMap.Interface(), nil
 }
@@ -1083,7 +1093,7 @@ func (c *SliceConverter) To(obj Object) (interface{}, error) {
 		if err != nil {
 			return nil, errz.TypeErrorf("type error: failed to convert slice element: %v", err)
 		}
-		slice = reflect.Append(slice, reflect.ValueOf(item))
+		slice = reflect.Append(slice, reflectValueOf(item, c.valueType))
 	}
 	return slice.Interface(), nil
 }
@@ -1138,7 +1148,7 @@ func (c *ArrayConverter) To(obj Object) (interface{}, error) {
 		if err != nil {
 			return nil, errz.TypeErrorf("type error: failed to convert element: %v", err)
 		}
-		arrayElem.Index(i).Set(reflect.ValueOf(item))
+		arrayElem.Index(i).Set(reflectValueOf(item, c.valueType))
 	}
 	return arrayElem.Interface(), nil
 }
